@@ -25,7 +25,7 @@ UMAX = 2 ** 64 - 1
 
 DEPENDS = {
     "C04": "the per-thread version slots live in a ConcurrentVector",
-    "C14": "slots are addressed by ThreadId / IdAllocator values",
+    "C14": ("slots are addressed by ThreadId / IdAllocator values", "all"),
 }
 
 def units(tier):
